@@ -529,14 +529,15 @@ def binary_pipeline_runs():
         sink = e2e.Sink()
         col = None
         try:
-            col = e2e.Collector(binary, d, sink=sink)
-            if not col.wait_up():
+            col, up = e2e.start(binary, d, sink=sink)
+            if not up:
                 fails.append(("binary:did-not-start", "sequence %d: %s" % (si, col.output()[-400:])))
                 continue
             col.send("ipfix", tpl_i)
             col.send("netflow9", tpl_9)
-            col.wait_count("IPFIX", 1)
-            col.wait_count("NetflowV9", 1)
+            # decoded, not merely received: the data datagrams below may go to the other worker
+            col.wait_count("IPFIX", 1, field="DecodedCount")
+            col.wait_count("NetflowV9", 1, field="DecodedCount")
             want = {}
             for proto in ("ipfix", "netflow9", "netflow5", "sflow"):
                 sent = dec = pub = 0
@@ -563,12 +564,22 @@ def binary_pipeline_runs():
             st = None
             for proto, (sent, dec, pub) in want.items():
                 extra = 1 if proto in ("ipfix", "netflow9") else 0
-                st = col.wait_count(key[proto], sent + extra, timeout=20)
+                st = col.wait_count(key[proto], sent + extra)
             t0 = time.time()
-            while time.time() - t0 < 20 and len(sink.snapshot()) < tot_pub:
+            while time.time() - t0 < 60 and len(sink.snapshot()) < tot_pub:
                 time.sleep(0.05)
             time.sleep(0.3)
             st = col.stats()
+            if st is None:
+                fails.append(("binary:stats-unreachable", "sequence %s: the /flow API stopped answering: %s" % (sq, col.output()[-400:])))
+                continue
+            dropped = {proto: col.kernel_drops(proto) for proto in want}
+            if any(dropped.values()):
+                # the statement is about datagrams the collector receives; these the kernel discarded
+                # before the collector could read them (socket buffer pressure on this machine)
+                print("   [binary] sequence %s not evaluated: the kernel discarded datagrams at the collector's sockets %s" % (sq, dropped), flush=True)
+                col.terminate()
+                continue
             bad = False
             for proto, (sent, dec, pub) in want.items():
                 extra = 1 if proto in ("ipfix", "netflow9") else 0
@@ -609,17 +620,18 @@ def binary_shutdown_runs(n):
     for k in range(n):
         d = tempfile.mkdtemp(prefix="c15e2e_", dir=orch.BUILD)
         sink = e2e.Sink()
-        col = None
+        col = col2 = None
         try:
-            col = e2e.Collector(binary, d, sink=sink)
-            if not col.wait_up():
+            col, up = e2e.start(binary, d, sink=sink)
+            if not up:
                 fails.append(("binary:did-not-start", "run %d: collector did not come up: %s" % (k, col.output()[-600:])))
                 continue
             fields = [(1, 8), (2, 8)]
             col.send("ipfix", e2e.ipfix_msg([e2e.ipfix_template_set(300, fields)]))
             col.send("netflow9", e2e.v9_msg([e2e.v9_template_set(300, fields)]))
-            col.wait_count("IPFIX", 1)
-            col.wait_count("NetflowV9", 1)
+            # "acknowledged before the signal": the template datagrams have been decoded, not merely read
+            col.wait_count("IPFIX", 1, field="DecodedCount")
+            col.wait_count("NetflowV9", 1, field="DecodedCount")
             nd = 1 + k % 4
             for i in range(nd):
                 col.send("ipfix", e2e.ipfix_msg([e2e.data_set(300, bytes(range(16)))], seq=i + 2))
@@ -673,8 +685,8 @@ def binary_shutdown_runs(n):
                 continue
             # restart on the same cache files: data only, must be published at once
             before = len(sink.snapshot())
-            col2 = e2e.Collector(binary, d, sink=sink)
-            if not col2.wait_up():
+            col2, up2 = e2e.start(binary, d, sink=sink)
+            if not up2:
                 fails.append(("binary:restart", "run %d: restart failed: %s" % (k, col2.output()[-600:])))
                 continue
             col2.send("ipfix", e2e.ipfix_msg([e2e.data_set(300, bytes(range(100, 116)))], seq=999))
@@ -695,8 +707,9 @@ def binary_shutdown_runs(n):
                 continue
             ok += 1
         finally:
-            if col:
-                col.kill()
+            for c in (col, col2):
+                if c:
+                    c.kill()
             sink.close()
             shutil.rmtree(d, ignore_errors=True)
     return ok, fails
@@ -743,7 +756,7 @@ def c15(tier):
                   extra_viol=extra_viol, t0=t0)
 
 
-def binary_config_runs():
+def binary_config_runs(attempt=0):
     """Trace validation for C17: effective settings of the started binary (Workers in /flow, bound
     ports, cache file written at shutdown) for configurations mixing the three sources."""
     import e2e, tempfile, shutil, socket
@@ -779,9 +792,17 @@ def binary_config_runs():
             if "http" in want:
                 col.http = want["http"]
             if not col.wait_up():
+                if not col.alive() and "address already in use" in col.output() and attempt < 3:
+                    return binary_config_runs(attempt + 1)  # another process took a port picked above: all over with new ports
                 fails.append(("binary:config:did-not-start", "%s: %s" % (name, col.output()[-500:])))
                 continue
-            st = col.stats()
+            # main() starts the listeners and the stats server side by side: wait for the IPFIX listener
+            # (Workers is added right after the bind) - or for all four listeners to exist elsewhere
+            col.wait_bound([want["ipfix_port"]])
+            st = col.wait_count("IPFIX", 1, timeout=30, field="Workers") or col.stats()
+            if not st or "IPFIX" not in st:
+                fails.append(("binary:config:stats-unreachable", "%s: the /flow API stopped answering: %s" % (name, col.output()[-500:])))
+                continue
             if st["IPFIX"]["Workers"] != want["workers"]:
                 fails.append(("binary:config:workers", "%s: /flow reports %s IPFIX workers, expected %d" % (name, st["IPFIX"]["Workers"], want["workers"])))
                 continue
